@@ -173,3 +173,107 @@ def post(tier, rng, api, publication=True):
     if len(lines) != len(scripts) or bad:
         res["problem"] = "exhaustive exploration of the extracted model fails: " + "; ".join(f"[{s}] {l}" for s, l in bad[:3])
     return res
+
+
+# --------------------------------------------------------------------------
+# Shrinking a failing trace: fewer schedules, shorter script, smaller thread
+# counts, fewer panics — as long as some schedule of the group still violates
+# the property; the shortest violating trace of the smallest group is reported.
+# --------------------------------------------------------------------------
+
+def _parse_group(g):
+    d = {}
+    for tok in g.split(" "):
+        if "=" in tok and not tok.startswith("#"):
+            k, v = tok.split("=", 1)
+            d[k] = v
+    scr = [int(x) for x in d.get("script", "").split(",") if x != ""]
+    pairs = lambda key: [tuple(int(y) for y in x.split(".")) for x in d.get(key, "").split(",") if x != ""]
+    return scr, pairs("panics"), pairs("bombs"), d
+
+
+def _fmt_group(scr, pan, bombs, d):
+    out = ["script=" + ",".join(map(str, scr)), "panics=" + ",".join("%d.%d" % c for c in pan)]
+    if bombs:
+        out.append("bombs=" + ",".join("%d.%d" % c for c in bombs))
+    for k in ("sched", "seed", "iters", "spur"):
+        if k in d:
+            out.append(f"{k}={d[k]}")
+    return " ".join(out)
+
+
+def _drop_broadcast(scr, pan, bombs, b):
+    """remove broadcast b (1-based) and renumber the faults"""
+    ren = lambda l: [(x - 1 if x > b else x, i) for x, i in l if x != b]
+    return scr[:b - 1] + scr[b:], ren(pan), ren(bombs)
+
+
+def _candidates(scr, pan, bombs, d):
+    for b in range(len(scr), 0, -1):
+        if len(scr) > 1:
+            yield _drop_broadcast(scr, pan, bombs, b) + (d,)
+    for b in range(len(scr)):
+        if scr[b] > 0:
+            n = scr[b] - 1
+            keep = lambda l: [(x, i) for x, i in l if not (x == b + 1 and i > n)]
+            yield scr[:b] + [n] + scr[b + 1:], keep(pan), keep(bombs), d
+    for c in pan:
+        yield scr, [x for x in pan if x != c], bombs, d
+    it = int(d.get("iters", "100"))
+    for k in (it // 8, it // 2):
+        if 1 <= k < it:
+            yield scr, pan, bombs, dict(d, iters=str(k))
+
+
+def _failing(group, mode, hbin, drv):
+    """(head, trace, verdict) of the shortest violating trace of the group, or None"""
+    try:
+        p = subprocess.run([hbin, "replay"], input=group + "\n", stdout=subprocess.PIPE, stderr=subprocess.DEVNULL,
+                           text=True, timeout=120, env=ENV)
+    except subprocess.TimeoutExpired:
+        return None
+    line = p.stdout.split("\n")[0] if p.stdout else ""
+    if not line or line.startswith("panic "):
+        return None
+    traces = [t.partition(":") for t in line.split(" ## ")]
+    q = subprocess.run([drv, mode + ".sb"], input="\n".join(f"{group} #{h}\t{ev}" for h, _, ev in traces) + "\n",
+                       stdout=subprocess.PIPE, stderr=subprocess.DEVNULL, text=True, timeout=300)
+    verdicts = q.stdout.split("\n")
+    bad = [(h, ev, v) for (h, _, ev), v in zip(traces, verdicts) if v.startswith("false")]
+    if not bad:
+        return None
+    return min(bad, key=lambda x: (len(x[1].split(" ")), x[0]))
+
+
+def shrink(item, rerun):
+    import vp
+    mode = item["mode"]
+    hbin = os.path.join(vp.TARGET, "release" if item.get("release") else "debug", item.get("crate", "hx-sched"))
+    drv = vp.driver_bin(item.get("drv", "pool"))
+    group = item["case"].split(" #")[0]
+    scr, pan, bombs, d = _parse_group(group)
+    best = _failing(_fmt_group(scr, pan, bombs, d), mode, hbin, drv)
+    if best is None:
+        return item
+    budget = 80
+    improved = True
+    while improved and budget > 0:
+        improved = False
+        for cand in _candidates(scr, pan, bombs, d):
+            budget -= 1
+            if budget <= 0:
+                break
+            r = _failing(_fmt_group(*cand), mode, hbin, drv)
+            if r is not None:
+                scr, pan, bombs, d = cand
+                best = r
+                improved = True
+                break
+    group = _fmt_group(scr, pan, bombs, d)
+    head, trace, verdict = best
+    case = f"{group} #{head}"
+    q = subprocess.run([drv, mode], input=f"{case}\t{trace}\n", stdout=subprocess.PIPE, stderr=subprocess.DEVNULL, text=True, timeout=120)
+    out = dict(item)
+    out.update({"case": case, "impl": trace, "model": q.stdout.split("\n")[0], "spec_verdict": verdict,
+                "shrunk_from": item["case"]})
+    return out
